@@ -68,7 +68,12 @@ macro_rules! plain_alg {
                 val(raw, nonneg)
             }
             fn item(e: &i64) -> Self::Item {
-                $item::new(*e)
+                // both public constructors
+                if *e % 2 == 0 {
+                    $item::new(*e)
+                } else {
+                    $item::from(*e)
+                }
             }
             fn modifier(_: u32, _: bool) {}
             fn apply(_: &mut i64, _: &()) {}
@@ -110,7 +115,12 @@ macro_rules! add_alg {
                 val(raw, nonneg)
             }
             fn item(e: &i64) -> Self::Item {
-                $item::new(*e)
+                // both public constructors
+                if *e % 2 == 0 {
+                    $item::new(*e)
+                } else {
+                    $item::from(*e)
+                }
             }
             fn modifier(raw: u32, nonneg: bool) -> i64 {
                 val(raw, nonneg)
@@ -154,7 +164,11 @@ impl Alg for ASumAdd {
         val(raw, nonneg)
     }
     fn item(e: &i64) -> Self::Item {
-        SumAdd::new(*e)
+        if *e % 2 == 0 {
+            SumAdd::new(*e)
+        } else {
+            SumAdd::from(*e)
+        }
     }
     fn modifier(raw: u32, nonneg: bool) -> i64 {
         val(raw, nonneg)
